@@ -32,7 +32,8 @@ func lexAll(s string) ([]tok, error) {
 			i++
 		case unicode.IsLetter(c) || c == '_':
 			j := i
-			for j < len(r) && (unicode.IsLetter(r[j]) || unicode.IsDigit(r[j]) || r[j] == '_') {
+			// `$` continues an identifier when digits follow (names of closures: outer$2)
+			for j < len(r) && (unicode.IsLetter(r[j]) || unicode.IsDigit(r[j]) || r[j] == '_' || (r[j] == '$' && j+1 < len(r) && unicode.IsDigit(r[j+1]))) {
 				j++
 			}
 			out = append(out, tok{kind: "ident", text: string(r[i:j])})
